@@ -150,7 +150,7 @@ func streamUnmarshal(r *hx.Rng, cfs []*cfile, bs *builtSet) {
 						cases = append(cases, ucase{c, md, canon, pre, "canonical", true})
 						nv := 2
 						if thorough {
-							nv = 8
+							nv = 4
 						}
 						for k := 0; k < nv; k++ {
 							g := &vgen{r: r, unknown: prop == "C07" || k%2 == 1, merge: k%2 == 1}
@@ -163,8 +163,8 @@ func streamUnmarshal(r *hx.Rng, cfs []*cfile, bs *builtSet) {
 					case "C17":
 						cases = append(cases, ucase{c, md, canon, pre, "canonical", true})
 					case "C08":
-						if !thorough && vi%5 != 0 || thorough && vi%2 != 0 {
-							continue // (quick: every fifth value, thorough: every second)
+						if !thorough && vi%5 != 0 || thorough && vi%3 != 0 {
+							continue // (quick: every fifth value, thorough: every third)
 						}
 						g := &vgen{r: r, unknown: true, noTrick: true}
 						base := g.message(v)
@@ -175,7 +175,7 @@ func streamUnmarshal(r *hx.Rng, cfs []*cfile, bs *builtSet) {
 						cases = append(cases, ucase{c, md, g2.message(v), nil, "valid-variant", false}, ucase{c, md, g2.message(v), pre, "valid-variant", false})
 						step, limit := 1, 40
 						if thorough {
-							limit = 80
+							limit = 60
 						}
 						if len(base) > limit {
 							step = len(base) / limit
